@@ -119,6 +119,42 @@ pub fn spec_type_matches(set: &BTreeSet<Triple>, ty: u32, sub: u32, incl: bool) 
     false
 }
 
+/// `[a>t>b,…]` → (source, type, target) triples
+pub fn parse_triples(s: &str) -> Option<Vec<Triple>> {
+    let inner = s.strip_prefix('[')?.strip_suffix(']')?;
+    if inner.is_empty() {
+        return Some(vec![]);
+    }
+    inner
+        .split(',')
+        .map(|e| {
+            let v: Vec<&str> = e.split('>').collect();
+            if v.len() != 3 {
+                return None;
+            }
+            Some((v[0].parse().ok()?, v[1].parse().ok()?, v[2].parse().ok()?))
+        })
+        .collect()
+}
+
+/// `[node:t:inv,…]` → (node, type, inverse) entries
+pub fn parse_entries(s: &str) -> Option<Vec<(u32, u32, bool)>> {
+    let inner = s.strip_prefix('[')?.strip_suffix(']')?;
+    if inner.is_empty() {
+        return Some(vec![]);
+    }
+    inner
+        .split(',')
+        .map(|e| {
+            let v: Vec<&str> = e.split(':').collect();
+            if v.len() != 3 {
+                return None;
+            }
+            Some((v[0].parse().ok()?, v[1].parse().ok()?, v[2] == "1"))
+        })
+        .collect()
+}
+
 pub fn parse_filter(s: &str) -> Option<Option<(u32, bool)>> {
     if s == "-" {
         return Some(None);
@@ -188,7 +224,61 @@ impl Prop for C28 {
                     }
                     break;
                 }
-                match rng.weighted(&[10, 2, 6, 3, 2, 2, 2, 1, 2, 2, 1]) {
+                match rng.weighted(&[10, 2, 6, 3, 2, 2, 2, 1, 2, 2, 1, 4, 2]) {
+                    11 | 12 => {
+                        // a batch: 0..5 entries, each either a live reference (a duplicate) or a fresh
+                        // one; the positions of the duplicates are drawn so that existing entries sit
+                        // first / in the middle / last and new entries follow existing ones
+                        let k = *rng.pick(&[0usize, 1, 2, 2, 3, 3, 3, 4, 5]);
+                        let pattern = rng.below(6); // 0 random, 1 dup first, 2 dup middle, 3 dup last, 4 all dup, 5 all new
+                        let mut batch: Vec<Triple> = Vec::new();
+                        for i in 0..k {
+                            let want_dup = match pattern {
+                                0 => rng.chance(1, 2),
+                                1 => i == 0,
+                                2 => i > 0 && i + 1 < k,
+                                3 => i + 1 == k,
+                                4 => true,
+                                _ => false,
+                            };
+                            let plain: Vec<Triple> = live.iter().cloned().filter(|x| x.1 != HAS_SUBTYPE).collect();
+                            let t3 = if want_dup && !plain.is_empty() {
+                                *rng.pick(&plain)
+                            } else if want_dup && !batch.is_empty() && rng.chance(1, 2) {
+                                *rng.pick(&batch) // repeated inside the batch
+                            } else {
+                                let (a, b2) = pair(rng, &nodes);
+                                (a, *rng.pick(&types), b2)
+                            };
+                            batch.push(t3);
+                        }
+                        if batch.is_empty() && rng.chance(1, 2) {
+                            out.push(format!("insmany {} []", rng.pick(&nodes)));
+                        } else if rng.chance(1, 2) || batch.is_empty() {
+                            let l: Vec<String> = batch.iter().map(|(a, t, b2)| format!("{}>{}>{}", a, t, b2)).collect();
+                            out.push(format!("insrefs [{}]", l.join(",")));
+                            live.extend(batch.iter().cloned());
+                        } else {
+                            // the same batch seen from one node: entries that start at `src` are forward,
+                            // entries that end there inverse, the others are re-anchored at `src`
+                            let src = batch[0].0;
+                            let mut l: Vec<String> = Vec::new();
+                            for (a, t, b2) in batch.iter() {
+                                if *a == src {
+                                    l.push(format!("{}:{}:0", b2, t));
+                                    live.push((src, *t, *b2));
+                                } else if *b2 == src {
+                                    l.push(format!("{}:{}:1", a, t));
+                                    live.push((*a, *t, src));
+                                } else {
+                                    let inv = rng.chance(1, 2);
+                                    l.push(format!("{}:{}:{}", a, t, b(inv)));
+                                    live.push(if inv { (*a, *t, src) } else { (src, *t, *a) });
+                                }
+                            }
+                            out.push(format!("insmany {} [{}]", src, l.join(",")));
+                        }
+                    }
                     8 => {
                         // insert with an explicit direction, sometimes a HasTypeDefinition reference
                         let (a, b2) = pair(rng, &nodes);
@@ -392,6 +482,34 @@ impl Runner for R {
                     self.set.insert((src, t, node));
                 }
                 let (o, v) = self.observe("insd");
+                (format!("ok {}", o), v)
+            }
+            ["insrefs", l] => {
+                // References::insert_references: a batch of (source, target, type)
+                let Some(l) = parse_triples(l) else { return ("bad-op".into(), Verdict::Ok) };
+                let ids: Vec<(NodeId, NodeId, NodeId)> = l.iter().map(|(a, t, b)| (nid(*a), nid(*b), nid(*t))).collect();
+                let refs: Vec<(&NodeId, &NodeId, &NodeId)> = ids.iter().map(|(a, b, t)| (a, b, t)).collect();
+                self.refs.insert_references(&refs);
+                // every entry of the batch is a reference afterwards, whatever existed before
+                for t in l.iter() {
+                    self.set.insert(*t);
+                }
+                let (o, v) = self.observe("insrefs");
+                (format!("ok {}", o), v)
+            }
+            ["insmany", src, l] => {
+                // References::insert: several (node, type, direction) entries for one source node
+                let (Some(src), Some(l)) = (p(src), parse_entries(l)) else { return ("bad-op".into(), Verdict::Ok) };
+                let ids: Vec<(NodeId, NodeId, ReferenceDirection)> = l
+                    .iter()
+                    .map(|(n, t, inv)| (nid(*n), nid(*t), if *inv { ReferenceDirection::Inverse } else { ReferenceDirection::Forward }))
+                    .collect();
+                let refs: Vec<(&NodeId, &NodeId, ReferenceDirection)> = ids.iter().map(|(n, t, d)| (n, t, *d)).collect();
+                self.refs.insert(&nid(src), &refs);
+                for (n, t, inv) in l.iter() {
+                    self.set.insert(if *inv { (*n, *t, src) } else { (src, *t, *n) });
+                }
+                let (o, v) = self.observe("insmany");
                 (format!("ok {}", o), v)
             }
             ["bydir", n, d, f] => {
